@@ -700,6 +700,8 @@ pub mod expr {
         Self::Literal(_, _) | Self::LocalId(_, _) | Self::ClassId(_, _, _) | Self::Tuple(_, _) => 0,
         Self::FieldAccess(_) | Self::MethodAccess(_) | Self::Call(_) | Self::Block(_) => 1,
         Self::Unary(_) => 2,
+        // The parser binds `::` tighter than `*` and looser than the unary operators.
+        Self::Binary(Binary { operator: BinaryOperator::CONCAT, .. }) => 3,
         Self::Binary(b) => 4 + b.operator.precedence(),
         Self::IfElse(_) => 10,
         Self::Match(_) => 11,
